@@ -1088,9 +1088,48 @@ pub fn compare_all(a: &LeanString, b: &LeanString) -> Vec<u8> {
     if te {
         ok &= h(&|s| a.hash(s)) == h(&|s| b.hash(s));
     }
+    // ... under ANY hasher: the calls made on the Hasher (which method, which bytes) are those str / String make
+    // (a hasher need not be a byte stream: write_u64(x) and write(&x.to_ne_bytes()) may hash differently)
+    #[derive(Default, PartialEq, Debug)]
+    struct Calls(Vec<(&'static str, Vec<u8>)>);
+    impl Hasher for Calls {
+        fn finish(&self) -> u64 {
+            0
+        }
+        fn write(&mut self, b: &[u8]) {
+            self.0.push(("write", b.to_vec()))
+        }
+        fn write_u8(&mut self, i: u8) {
+            self.0.push(("u8", vec![i]))
+        }
+        fn write_u16(&mut self, i: u16) {
+            self.0.push(("u16", i.to_ne_bytes().to_vec()))
+        }
+        fn write_u32(&mut self, i: u32) {
+            self.0.push(("u32", i.to_ne_bytes().to_vec()))
+        }
+        fn write_u64(&mut self, i: u64) {
+            self.0.push(("u64", i.to_ne_bytes().to_vec()))
+        }
+        fn write_u128(&mut self, i: u128) {
+            self.0.push(("u128", i.to_ne_bytes().to_vec()))
+        }
+        fn write_usize(&mut self, i: usize) {
+            self.0.push(("usize", i.to_ne_bytes().to_vec()))
+        }
+    }
+    let calls = |x: &dyn Fn(&mut Calls)| {
+        let mut c = Calls::default();
+        x(&mut c);
+        c
+    };
+    ok &= calls(&|s| a.hash(s)) == calls(&|s| ta.as_str().hash(s)) && calls(&|s| a.hash(s)) == calls(&|s| ta.hash(s));
+    ok &= calls(&|s| b.hash(s)) == calls(&|s| tb.as_str().hash(s)) && calls(&|s| b.hash(s)) == calls(&|s| cow_b.hash(s));
     // formatting
     ok &= format!("{a}") == ta && format!("{a:?}") == format!("{:?}", ta.as_str()) && format!("{b}") == tb && format!("{b:?}") == format!("{:?}", tb.as_str());
     ok &= format!("{a:>30}") == format!("{:>30}", ta.as_str());
+    ok &= format!("{a:.3}") == format!("{:.3}", ta.as_str()) && format!("{a:*^9.4}") == format!("{:*^9.4}", ta.as_str()) && format!("{b:<5}|") == format!("{:<5}|", tb.as_str());
+    ok &= format!("{a:#?}") == format!("{:#?}", ta.as_str()) && format!("{:?}", Some(a)) == format!("{:?}", Some(ta.as_str()));
     // views
     ok &= <LeanString as AsRef<str>>::as_ref(a) == ta && <LeanString as AsRef<[u8]>>::as_ref(a) == ta.as_bytes() && <LeanString as std::borrow::Borrow<str>>::borrow(a) == ta && &**a == ta.as_str();
     ok &= String::from(a) == ta && String::from(b.clone()) == tb;
